@@ -35,6 +35,7 @@ type vfCfgGot struct {
 	Dnns      []string `json:"dnns"`
 	Cidrs     []string `json:"cidrs"`
 	Level     string   `json:"level"`
+	Extra     []string `json:"extra"`
 }
 
 type vfCfgOut struct {
@@ -76,7 +77,7 @@ func TestVerifConfig(t *testing.T) {
 			t.Fatalf("INFRA: %v", err)
 		}
 		o := vfCfgOut{ID: v.ID, St: v.St, Want: v.Want}
-		o.Got.IfAddrs, o.Got.IfTypes, o.Got.Dnns, o.Got.Cidrs = []string{}, []string{}, []string{}, []string{}
+		o.Got.IfAddrs, o.Got.IfTypes, o.Got.Dnns, o.Got.Cidrs, o.Got.Extra = []string{}, []string{}, []string{}, []string{}, []string{}
 		p := filepath.Join(dir, "c.yaml")
 		if err := os.WriteFile(p, []byte(v.Yaml), 0o600); err != nil {
 			t.Fatalf("INFRA: %v", err)
@@ -93,6 +94,7 @@ func TestVerifConfig(t *testing.T) {
 			if o.Accepted {
 				g := &o.Got
 				g.Version = cfg.Version
+				g.Extra = append(g.Extra, "desc="+cfg.Description)
 				if cfg.Pfcp != nil {
 					g.Addr, g.NodeID, g.RT, g.MaxRt = cfg.Pfcp.Addr, cfg.Pfcp.NodeID, cfg.Pfcp.RetransTimeout.String(), int(cfg.Pfcp.MaxRetrans)
 				}
@@ -101,14 +103,18 @@ func TestVerifConfig(t *testing.T) {
 					for _, i := range cfg.Gtpu.IfList {
 						g.IfAddrs = append(g.IfAddrs, i.Addr)
 						g.IfTypes = append(g.IfTypes, i.Type)
+						g.Extra = append(g.Extra, fmt.Sprintf("if=%s|%s|%d", i.Name, i.IfName, i.MTU))
 					}
 				}
 				for _, d := range cfg.DnnList {
 					g.Dnns = append(g.Dnns, d.Dnn)
 					g.Cidrs = append(g.Cidrs, d.Cidr)
+					g.Extra = append(g.Extra, "nat="+d.NatIfName)
 				}
 				if cfg.Logger != nil {
 					g.Level = cfg.Logger.Level
+					tf := map[bool]string{true: "True", false: "False"}
+					g.Extra = append(g.Extra, "log="+tf[cfg.Logger.Enable]+"|"+tf[cfg.Logger.ReportCaller])
 				}
 			}
 		}()
